@@ -89,6 +89,18 @@ CLAIMED = {
             "for symbolic owners and values; the replayed balance view reads only ancestors and equals a recount of the stored map; per-block maps "
             "are equal across arrival orders on every tree of <= 4 (quick) / 5 (thorough) blocks.",
             "PyMap for immutables.Map, preset ids; validity precondition of C01 assumed for the applied block.", "DESIGN.md 4/C03"),
+    "C14": ("CrossHair symbolic execution of create_spend_transaction / sign_transaction and of the transaction validators on their result",
+            "Solver verdict over symbolic balances (3 wallet-owned outputs over 2 keys + foreign outputs), amount, fee and pre-existing used-set, "
+            "for two successive requests: a returned transaction passes both validators at the head, pays exactly the amount, returns exactly the "
+            "rest as change (none when zero), uses only unused wallet outputs and records exactly those; a refusal changes nothing and happens "
+            "only when the unused outputs do not cover amount + fee.",
+            "Ideal signing key; stubs as C01; total value <= documented maximum; wallets needing ~1977+ inputs (size limit) outside.", "DESIGN.md 4/C14"),
+    "C15": ("CrossHair symbolic execution of the wallet's key bookkeeping, dump/load, get_balance and save_wallet (symbolic structure, ghost set of handed-out keys, symbolic crash point)",
+            "Solver verdict from every invariant wallet structure over 4 keys: hand-out / restore / save-load / hand-out keeps the invariant and never "
+            "re-issues a key while unused ones remain (known finding F7: exhausted-wallet restore, reported as KNOWN-FINDING and excluded); dump-load "
+            "is the identity incl. order; balance = recount of the head's unspent outputs over wallet keys; save_wallet under a crash before any "
+            "file operation with eager and buffered writes leaves the complete old or new file (replayed with a real process death on a real directory).",
+            "Key bytes / annotation texts concrete (json, hexlify are C/regex code); in-memory file system model for the symbolic run.", "DESIGN.md 4/C15"),
 }
 
 NOT_YET = "not claimed yet in this revision of /verif: the check is still being built (see DESIGN.md section 4 for the planned decision procedure)"
